@@ -20,6 +20,9 @@ NCPU = int(os.environ.get("VERIF_JOBS", "16"))
 CFG_WEIGHT = {"vsan": 0.34, "small13": 1.0, "small199": 1.0}
 
 
+LIBPATHS = {}
+
+
 def log(*a):
     print(*a, flush=True)
 
@@ -32,12 +35,16 @@ def worker_env(cfg):
         env["LD_PRELOAD"] = B.asan_preload()
         env["ASAN_OPTIONS"] = "detect_leaks=0:abort_on_error=1:handle_abort=1:allocator_may_return_null=1:symbolize=1:quarantine_size_mb=32"
         env["UBSAN_OPTIONS"] = "print_stacktrace=1:halt_on_error=1"
+        # route Python's own allocations (ctypes buffers) through the sanitizer's malloc so that they get red zones
+        env["PYTHONMALLOC"] = "malloc"
+        env["VF_MALLOC_BUF"] = "1"
     return env
 
 
 def spawn(spec, cfg, workdir, tag):
     sp = os.path.join(workdir, tag + ".spec.json")
     spec = dict(spec)
+    spec.setdefault("libpath", LIBPATHS.get(cfg))
     spec["out"] = os.path.join(workdir, tag + ".out.json")
     spec["journal"] = os.path.join(workdir, tag + ".journal.json")
     with open(sp, "w") as f:
@@ -112,6 +119,7 @@ def write_replay(prop, cfg, failure, extra=None):
 
 
 def do_replay(prop, path):
+    os.environ["VERIF_PROP"] = prop
     with open(path) as f:
         body = json.load(f)
     mod = importlib.import_module("vf.props." + prop)
@@ -125,7 +133,7 @@ def do_replay(prop, path):
     try:
         bad = False
         for cfg in cfgs:
-            B.build(B.CONFIGS[cfg])
+            LIBPATHS[cfg] = B.build(B.CONFIGS[cfg])
             oc = replay_case(prop, cfg, body["test"], body["case"], workdir, times=1)
             log("replay cfg=%s outcome=%s %s" % (cfg, oc[0][0], oc[0][1][:2000]))
             if oc[0][0] in ("fail", "crash"):
@@ -139,6 +147,7 @@ def do_replay(prop, path):
 
 
 def run(prop, tier):
+    os.environ["VERIF_PROP"] = prop
     t0 = time.time()
     seed = int(os.environ.get("VERIF_SEED", "1") or "1") or 1
     mod = importlib.import_module("vf.props." + prop)
@@ -161,7 +170,8 @@ def _run(prop, tier, seed, mod, workdir, t0):
     # ---- build (always from the repo's current tree; cache is content-addressed)
     try:
         with concurrent.futures.ThreadPoolExecutor(max_workers=8) as ex:
-            list(ex.map(lambda c: B.build(B.CONFIGS[c]), cfgs))
+            for c, pth in zip(cfgs, ex.map(lambda c: B.build(B.CONFIGS[c]), cfgs)):
+                LIBPATHS[c] = pth
     except B.BuildError as e:
         log("INCONCLUSIVE build: " + str(e)[-4000:])
         return 2
